@@ -141,22 +141,25 @@ int main(int argc, char** argv) {
   auto P = programs();
 #ifdef TBBCONF_MODEL
   // ---- enumerate every schedule of the model for W in {2,3} and C in {1,2,4,16}
-  std::vector<std::pair<int, int>> cfgs = {{2, 1}, {2, 2}, {2, 4}, {2, 16}, {3, 2}, {3, 4}};
+  // (threads W, reported max_concurrency C).  W=2 is explored completely; W=3 within preemption bound 4.
+  std::vector<std::pair<int, int>> cfgs = {{2, 1}, {2, 2}, {3, 3}};
   auto lines = R.phase("model-traces", P.size() * cfgs.size(), 1, [&](uint64_t idx, Ctx& c) {
     const Prog& p = P[idx / cfgs.size()];
     auto wc = cfgs[idx % cfgs.size()];
     c.describe(p.name + " W=" + std::to_string(wc.first) + " C=" + std::to_string(wc.second));
     vx::Explorer ex;
     vx::Config cfg;
-    cfg.bound = wc.first == 2 ? 1000 : 3;  // W=2: no bound (complete); W=3: preemption bound 3
+    cfg.bound = wc.first == 2 ? 1000 : 4;  // W=2: no bound (complete); W=3: preemption bound 4
     cfg.freeCost = 0;
     cfg.workers = wc.first;
     cfg.concurrency = wc.second;
-    cfg.maxExec = 200000;
+    cfg.maxExec = getenv("TBBCONF_MAXEXEC") ? atoll(getenv("TBBCONF_MAXEXEC")) : (R.a.thorough() ? 3000000 : 200000);
+    cfg.inProcess = true;
+    cfg.timeout = 600;
     std::set<std::string> seen;
     vx::Stats st = ex.explore(cfg, p.run, [&](const vx::Exec& e) {
       if (e.status != 1) c.viol("model:" + p.name, p.name, "execution did not finish: " + e.outcome);
-      else if (seen.insert(e.outcome).second) c.emit(p.name + "\t" + e.outcome);
+      else if (seen.insert(e.outcome).second) c.emit("C=" + std::to_string(wc.second) + " " + p.name + "\t" + e.outcome);
       return true;
     });
     c.count("executions", st.executions);
@@ -179,10 +182,17 @@ int main(int argc, char** argv) {
     std::string l;
     while (std::getline(f, l)) model.insert(l);
   }
-  const int reps = R.a.thorough() ? 4000 : 600;
-  R.phase("libtbb-traces", P.size() * 5, 1, [&](uint64_t idx, Ctx& c) {
-    const Prog& p = P[idx / 5];
-    int arenaSize = std::vector<int>{1, 2, 4, 8, 16}[idx % 5];
+  // Strict part: an arena of k threads (k = 1, 2, 3; max_concurrency k) against the model explored with the same
+  // reported concurrency and at least as many threads - every canonical trace libtbb produces must be one the model
+  // produces.  Larger arenas (4, 8, 16) are run for information: traces that need more than three concurrent thieves
+  // are outside the model's thread bound by construction and are only counted.
+  const int reps = R.a.thorough() ? 6000 : 1500;
+  const std::vector<int> ARENAS = {1, 2, 3, 4, 8, 16};
+  const size_t na = ARENAS.size();
+  R.phase("libtbb-traces", P.size() * na, 1, [&](uint64_t idx, Ctx& c) {
+    const Prog& p = P[idx / na];
+    int arenaSize = ARENAS[idx % na];
+    const bool strict = arenaSize <= 3;
     c.describe(p.name + " arena=" + std::to_string(arenaSize));
     if (model.empty()) {
       c.viol("setup:no-model-traces", p.name, "the model's trace set is missing (run order / build problem)");
@@ -196,15 +206,24 @@ int main(int argc, char** argv) {
       seen.insert(t);
     }
     c.count("runs", reps);
-    c.count("distinct_traces", seen.size());
+    c.count(strict ? "distinct_traces_strict" : "distinct_traces_large_arena", seen.size());
     for (auto& t : seen) {
-      c.count("traces_validated");
-      if (!model.count(p.name + "\t" + t)) c.viol("conformance:" + p.name + ":" + t, p.name, "real libtbb produced a canonical trace that no schedule of the model produces: " + t);
+      bool in = false;
+      if (strict) in = model.count("C=" + std::to_string(arenaSize) + " " + p.name + "\t" + t);
+      else
+        for (int cc : {1, 2, 3}) in = in || model.count("C=" + std::to_string(cc) + " " + p.name + "\t" + t);
+      if (strict) {
+        c.count("traces_validated");
+        if (!in) c.viol("conformance:" + p.name + ":arena" + std::to_string(arenaSize) + ":" + t, p.name,
+                        "real libtbb (arena of " + std::to_string(arenaSize) + ") produced a canonical trace that no schedule of the model with the same concurrency produces: " + t);
+      } else {
+        c.count(in ? "large_arena_traces_in_model" : "large_arena_traces_beyond_thread_bound");
+      }
     }
     c.distinct(hash_str(p.name + std::to_string(arenaSize)));
     if (seen.size() > 1) c.nontrivial(hash_str(p.name + std::to_string(arenaSize)));
     if (idx % 23 == 0) c.sample(p.name + " arena " + std::to_string(arenaSize) + ": " + std::to_string(seen.size()) + " distinct traces in " + std::to_string(reps) + " runs");
-  }, {"runs", "distinct_traces", "traces_validated"});
+  }, {"runs", "distinct_traces_strict", "distinct_traces_large_arena", "traces_validated", "large_arena_traces_in_model", "large_arena_traces_beyond_thread_bound"});
 #endif
   return R.finish();
 }
